@@ -116,7 +116,7 @@ def inline_helpers(prog, module, keep=(), also=()):
         from ..sym import UNIT_HELPERS, private_class
         if (g.name.startswith("_") and not g.name.startswith("__")) or private_class(g):
             # private helpers of the module itself always; those of other modules unless the rules treat them as units of their own
-            return g.module.name == module or g.qname not in UNIT_HELPERS
+            return g.public_module.name == module or g.qname not in UNIT_HELPERS
         return False
     return pol
 
@@ -866,7 +866,7 @@ def empty_subset_replaced(rep, prog, entries, rule="EMPTY.subset"):
     from ..sym import walk as _walk
     for q, p_ in entries:
         f = need(prog, q)
-        S = Sym(prog, inline=inline_helpers(prog, f.module.name))
+        S = Sym(prog, inline=inline_helpers(prog, f.public_module.name))
         try:
             run_function(S, f)
         except Inconclusive as e:
@@ -1031,7 +1031,7 @@ def input_assertions(rep, prog, qnames, rule="ASSERT.input"):
     n = 0
     for q in sorted(qnames):
         f = prog.funcs.get(q)
-        if f is None or f.module.name.startswith("drf") or f.name.startswith("_") or (f.cls and f.cls.startswith("_")):
+        if f is None or f.public_module.name.startswith("drf") or f.name.startswith("_") or (f.cls and f.cls.startswith("_")):
             continue
         params = set(f.params)
         assigned = {}
@@ -1087,7 +1087,7 @@ def index_truthiness(rep, prog, qnames, rule="TRAP.any-of-indices"):
     n = 0
     for q in sorted(qnames):
         f = prog.funcs.get(q)
-        if f is None or f.module.name.startswith("drf"):
+        if f is None or f.public_module.name.startswith("drf"):
             continue
         names = set()
         for node in ast.walk(f.node):
@@ -1120,7 +1120,7 @@ def python_traps(rep, prog, qnames, rule="TRAP"):
     bad = 0
     for q in sorted(qnames):
         f = prog.funcs.get(q)
-        if f is None or f.module.name.startswith("drf"):
+        if f is None or f.public_module.name.startswith("drf"):
             continue
         for node in ast.walk(f.node):
             if isinstance(node, ast.Call):
@@ -1248,7 +1248,7 @@ def dtype_store_sweep(rep, prog, interps, rule="DTYPE.inferred-target"):
             continue
         for q in sorted({x.qname for x in it.facts if x.kind == "store"}):
             f = prog.funcs.get(q)
-            if f is None or f.module.name.startswith("drf") or (id(it), q) in seen:
+            if f is None or f.public_module.name.startswith("drf") or (id(it), q) in seen:
                 continue
             seen.add((id(it), q))
             n, hit = inferred_dtype_stores(rep, it, f, rule)
